@@ -337,7 +337,8 @@ __CPROVER_ensures(XF_OTHER_KEPT)
 #define XR_MIRROR(rl) ((rl)->cond0 == xv_legs[0].cond && (rl)->cond1 == xv_legs[1].cond)
 #define XR_DIR_STATE(rl, f, s) ((rl)->f.running ? (XG_RUNNING_INV(&(rl)->f, s) && XV_LEGS_LIVE) : XF_EV_OFF(&(rl)->f))
 #define XR_STATE(rl) (XR_WIRED(rl) && XR_MIRROR(rl) && XV_COND_VALID && XF_LEN_OK(&(rl)->fwd0) && XF_LEN_OK(&(rl)->fwd1) && \
-                      XR_DIR_STATE(rl, fwd0, 0) && XR_DIR_STATE(rl, fwd1, 1))
+                      XR_DIR_STATE(rl, fwd0, 0) && XR_DIR_STATE(rl, fwd1, 1) && \
+                      xv_ev_pending >= 2 * XR_B2I((rl)->fwd0.running) + 2 * XR_B2I((rl)->fwd1.running))
 #define XR_B2I(b) ((b) ? 1 : 0)
 
 /* ---- xrelay_create -------------------------------------------------------------------------------------------------- */
@@ -417,10 +418,10 @@ __CPROVER_ensures(!relay->fwd0.running && !relay->fwd1.running && XF_EV_OFF(&rel
 #define XR_WAS_FREED(p) __CPROVER_was_freed(p)
 #endif
 void xrelay_destroy(struct xrelay *relay)
-__CPROVER_requires(relay == NULL || (__CPROVER_rw_ok(relay, sizeof(*relay)) && __CPROVER_is_freeable(relay) && XV_LEGS_OPEN && XV_RELAY_GHOST_RANGE_OUT && XR_STATE(relay)))
+__CPROVER_requires(relay == NULL || (__CPROVER_rw_ok(relay, sizeof(*relay)) && __CPROVER_is_freeable(relay) && XV_LEGS_OPEN && XV_RELAY_GHOST_LIM(XV_RELAY_CALLS_MAX + 96) && XR_STATE(relay)))
 __CPROVER_assigns(relay != NULL: XR_EV_ASSIGNS(relay), xv_ev_del_calls, XR_COND_ASSIGNS(relay), xv_close_calls, xv_close_unflushed, xv_legs[0].closed, xv_legs[1].closed)
 __CPROVER_frees(relay)
-__CPROVER_ensures(XV_RELAY_GHOST_RANGE_OUT)
+__CPROVER_ensures(relay != NULL ==> XV_RELAY_GHOST_RANGE_OUT2)
 /* PO[C20] xrelay_destroy.released: both connections closed, each exactly once; no event of the relay left pending in the event base (it would point into freed memory); the relay freed; NULL is a no-op */
 __CPROVER_ensures(relay == NULL ? (XF_SAME(xv_close_calls) && XF_SAME(xv_ev_pending)) \
     : (xv_close_calls == __CPROVER_old(xv_close_calls) + 2 && xv_legs[0].closed && xv_legs[1].closed && XR_WAS_FREED(relay) && \
@@ -494,10 +495,10 @@ __CPROVER_assigns(xv_errno, xv_aw_calls, __CPROVER_object_whole(&xv_legs), xv_cl
                   *relay->entry.le_prev, XR_EV_ASSIGNS(relay), relay->cond0, relay->cond1)
 __CPROVER_assigns(relay->entry.le_next != NULL: relay->entry.le_next->entry.le_prev)
 __CPROVER_frees(relay)
-/* PO[C20] rserver_terminate_relay.unlinked_and_released: the relay is taken out of the list (its neighbours are linked to each other), both its connections are closed, it is freed; nothing else is closed */
+/* PO[C20] rserver_terminate_relay.unlinked_and_released: the relay is taken out of the list (its neighbours are linked to each other) and handed to xrelay_destroy (both its connections closed; that it is freed is xrelay_destroy.released); nothing else is closed */
 __CPROVER_ensures(*__CPROVER_old(relay->entry.le_prev) == __CPROVER_old(relay->entry.le_next) && \
                   (__CPROVER_old(relay->entry.le_next) != NULL ==> __CPROVER_old(relay->entry.le_next)->entry.le_prev == __CPROVER_old(relay->entry.le_prev)) && \
-                  xv_legs[0].closed && xv_legs[1].closed && !xv_legs[XV_SRV].closed && xv_close_calls == __CPROVER_old(xv_close_calls) + 2 && __CPROVER_was_freed(relay))
+                  xv_legs[0].closed && xv_legs[1].closed && !xv_legs[XV_SRV].closed && xv_close_calls == __CPROVER_old(xv_close_calls) + 2)
 ;
 
 int rserver_start(struct rserver *server)
@@ -505,12 +506,13 @@ __CPROVER_requires(RS_SHAPE(server) && RS_CNT_OK)
 __CPROVER_requires(server->running ? (XV_EV_FLAGS(&server->server_socket_event) & (EVLIST_INIT | EVLIST_INSERTED)) == (EVLIST_INIT | EVLIST_INSERTED) \
                                    : (XV_EV_FLAGS(&server->server_socket_event) & EVLIST_INSERTED) == 0)
 __CPROVER_assigns(xv_errno, xv_aw_calls, xv_legs[XV_SRV].cond, server->server_socket_event, server->running, xv_ev_pending, xv_ev_add_calls, xv_ev_assign_calls, xv_ev_add_failed)
-/* PO[C20] rserver_start.listening: the server awaits connections and its descriptor is watched, dispatching to rserver_accept with the server */
-__CPROVER_ensures(__CPROVER_return_value == 0 && server->running && \
-    (!__CPROVER_old(server->running) ==> (xv_legs[XV_SRV].cond == XCM_SO_ACCEPTABLE && \
+/* PO[C20] rserver_start.listening: the server awaits connections */
+__CPROVER_ensures(__CPROVER_return_value == 0 && server->running && (!__CPROVER_old(server->running) ==> xv_legs[XV_SRV].cond == XCM_SO_ACCEPTABLE))
+/* PO[C20] rserver_start.event_registered: ... and its descriptor is watched, dispatching to rserver_accept with the server */
+__CPROVER_ensures(!__CPROVER_old(server->running) ==> ( \
         (XV_EV_FLAGS(&server->server_socket_event) & (EVLIST_INIT | EVLIST_INSERTED)) == (EVLIST_INIT | EVLIST_INSERTED) && \
         server->server_socket_event.ev_fd == xv_legs[XV_SRV].fd && XV_EV_CB(&server->server_socket_event) == rserver_accept && \
-        XV_EV_ARG(&server->server_socket_event) == (void *)server && server->server_socket_event.ev_events == (EV_READ | EV_PERSIST))))
+        XV_EV_ARG(&server->server_socket_event) == (void *)server && server->server_socket_event.ev_events == (EV_READ | EV_PERSIST)))
 ;
 
 void rserver_stop(struct rserver *server)
